@@ -127,6 +127,32 @@ def check_reassembly(ctx, R, DR, MARKER, size_ok, size_desc, min_packet=8):
                fail=f"the extraction loop can stop (`{show(tt)}` false) while complete packets remain buffered")
     else:
         ctx.ob(R + ".d", DR, False, "", func=DR, file=file, construct="extraction loop kind", fail="extraction loop is not a while loop over the buffer")
+    # every early return of the callback is caused by the leading packet being incomplete (or no marker / no data):
+    # any other condition can hold back a packet whose last byte has arrived
+    loop_returns = {id(n) for _st, n in info["returns"]}
+    all_returns = [(st, n) for st, n in info["returns"]] + [(rst, n) for _pc, _t, n, rst in s.returns if n is not None and id(n) not in loop_returns]
+    for st, node in all_returns:
+        if not st.pc:
+            continue
+        c, truth = st.pc[-1]
+        cs = strip(c)
+        while cs[0] == "un" and cs[1] == "not":
+            cs, truth = strip(cs[2]), not truth
+        why = None
+        if cs[0] == "cmp":
+            l, r = strip(cs[2]), strip(cs[3])
+            if meth_is(l, "find") and r == ("const", -1) and (cs[1] == "==") == truth:
+                why = "no marker in the buffer"
+            elif meth_is(l, "find") and r == ("const", 0) and ((cs[1] == "<") == truth):
+                why = "no marker in the buffer"
+            elif call_is(l, "len") and strip(l[2][0])[0] == "slice" and ((cs[1] in ("<", "<=")) == truth or (cs[1] in (">=", ">")) != truth):
+                why = "leading packet incomplete"
+            elif call_is(l, "len") and strip(l[2][0]) == ("param", data_p):
+                why = "empty segment"
+        elif cs == ("param", data_p) and not truth:
+            why = "empty segment"
+        ctx.ob(R + ".b", DR, why is not None, f"early return because: {why}", func=DR, file=file, node=node, detail={"condition": show(c)[:100], "truth": truth},
+               fail=f"data_received returns early on `{show(c)[:80]}` is {truth}: a condition other than 'no marker / leading packet incomplete' can hold back a packet whose last byte has arrived")
     # early returns leave the buffer untouched
     for st, node in info["returns"]:
         ctx.count("early_returns")
